@@ -4,12 +4,17 @@
    definitions are used exactly as written right after the group is entered), and - through
    whnf_sound / convb_sound, which are stated under an arbitrary context G - that normalisation and
    the conversion test under a context are sound for the reduction / definitional equality of that
-   context. That the implementation's normalize_weak_head / unify / type_check under a context behave
+   context. Proved as well (Proofs/WeakenProofs.v): inserting any block of entries B anywhere into a
+   context (the entries above the insertion point re-indexed as `ushift` does, offsets unchanged) and
+   shifting the term accordingly commutes with weak-head normalisation, with full normalisation and
+   with the conversion test, at every fuel - in particular a closed term normalises / compares under
+   ANY context exactly as it does in the empty one, parameters and definitions with offsets alike
+   (hole-free terms; `hole_free_needed` shows the restriction is necessary: D9). That the implementation's normalize_weak_head / unify / type_check under a context behave
    like these mirrors, give the closed wrapper's verdict and type, and restore the caller's contexts
    in every outcome is decided by the streams. *)
 From Coq Require Import List ZArith Bool Relations.
 Import ListNotations.
-Require Import Gram.Model.Term Gram.Model.DeBruijn Gram.Model.Eval Gram.Spec.Typing Gram.Oracle.Infer Gram.Proofs.InferSound Gram.Proofs.CtxProofs.
+Require Import Gram.Model.Term Gram.Model.DeBruijn Gram.Model.Eval Gram.Spec.Typing Gram.Oracle.Infer Gram.Proofs.InferSound Gram.Proofs.CtxProofs Gram.Proofs.WeakenProofs Gram.Proofs.WeakenInfer.
 
 Theorem C18_lookup_param : forall G A, lookup_ty (bind G A) 0 = Some (ushift A 0 1).
 Proof. exact lookup_ty_bind0. Qed.
@@ -44,3 +49,104 @@ Theorem C18_offsets_example :
 Proof. exact lookup_offsets_example. Qed.
 Check C18_offsets_example : let G := _ in _ /\ _ /\ _ /\ _ /\ _.
 Print Assumptions C18_offsets_example.
+
+(* the context with B inserted below the |L| innermost entries answers lookups with the shifted answer *)
+Theorem C18_lookup_insert : forall L B G i, wf_offsets L -> wf_offsets G ->
+  lookup_ty (insert_ctx L B G) (up_idx i (length L) (length B)) =
+  option_map (fun d => ushift d (length L) (length B)) (lookup_ty (L ++ G) i).
+Proof. exact lookup_ty_insert. Qed.
+Check C18_lookup_insert : forall L B G i, wf_offsets L -> wf_offsets G ->
+  lookup_ty (insert_ctx L B G) (up_idx i (length L) (length B)) =
+  option_map (fun d => ushift d (length L) (length B)) (lookup_ty (L ++ G) i).
+Print Assumptions C18_lookup_insert.
+
+Theorem C18_whnf_insert : forall B G, wf_offsets G -> forall f L t,
+  wf_offsets L -> ctx_hf (L ++ G) -> hole_free t = true ->
+  whnf f (insert_ctx L B G) (ushift t (length L) (length B)) =
+  option_map (fun u => ushift u (length L) (length B)) (whnf f (L ++ G) t).
+Proof. exact whnf_insert. Qed.
+Check C18_whnf_insert : forall B G, wf_offsets G -> forall f L t,
+  wf_offsets L -> ctx_hf (L ++ G) -> hole_free t = true ->
+  whnf f (insert_ctx L B G) (ushift t (length L) (length B)) =
+  option_map (fun u => ushift u (length L) (length B)) (whnf f (L ++ G) t).
+Print Assumptions C18_whnf_insert.
+
+Theorem C18_convb_insert : forall B G, wf_offsets G -> forall f L a b,
+  wf_offsets L -> ctx_hf (L ++ G) -> hole_free a = true -> hole_free b = true ->
+  convb f (insert_ctx L B G) (ushift a (length L) (length B)) (ushift b (length L) (length B)) =
+  convb f (L ++ G) a b.
+Proof. exact convb_insert. Qed.
+Check C18_convb_insert : forall B G, wf_offsets G -> forall f L a b,
+  wf_offsets L -> ctx_hf (L ++ G) -> hole_free a = true -> hole_free b = true ->
+  convb f (insert_ctx L B G) (ushift a (length L) (length B)) (ushift b (length L) (length B)) =
+  convb f (L ++ G) a b.
+Print Assumptions C18_convb_insert.
+
+(* a closed term under any context behaves as in the empty context *)
+Theorem C18_whnf_closed_under : forall B f t, hole_free t = true ->
+  whnf f B (ushift t 0 (length B)) = option_map (fun u => ushift u 0 (length B)) (whnf f [] t).
+Proof. exact whnf_closed_under. Qed.
+Check C18_whnf_closed_under : forall B f t, hole_free t = true ->
+  whnf f B (ushift t 0 (length B)) = option_map (fun u => ushift u 0 (length B)) (whnf f [] t).
+Print Assumptions C18_whnf_closed_under.
+
+Theorem C18_convb_closed_under : forall B f a b, hole_free a = true -> hole_free b = true ->
+  convb f B (ushift a 0 (length B)) (ushift b 0 (length B)) = convb f [] a b.
+Proof. exact convb_closed_under. Qed.
+Check C18_convb_closed_under : forall B f a b, hole_free a = true -> hole_free b = true ->
+  convb f B (ushift a 0 (length B)) (ushift b 0 (length B)) = convb f [] a b.
+Print Assumptions C18_convb_closed_under.
+
+(* non-vacuity and necessity, computed inside Coq *)
+Theorem C18_insert_example : ltac:(let T := type of insert_example in exact T).
+Proof. exact insert_example. Qed.
+Check C18_insert_example : let G := _ in let L := _ in let B := _ in let t := _ in _ /\ _ /\ _ /\ _ /\ _ /\ _ /\ _ /\ _ /\ _ /\ _ /\ _.
+Print Assumptions C18_insert_example.
+
+(* the same for the verified CHECKER (Proofs/WeakenInfer.v): checking a term under the context with B inserted
+   gives the same verdict and the correspondingly shifted type, at every fuel; a closed term checks under any
+   context exactly as it does closed; and conversely a term that does not mention the inserted block checks
+   without it (strengthening). *)
+Theorem C18_infer_insert : forall B G, wf_offsets G -> forall f L t,
+  wf_offsets L -> ctx_hf' (L ++ G) -> hole_free t = true ->
+  infer f (insert_ctx L B G) (ushift t (length L) (length B)) =
+  option_map (fun T => ushift T (length L) (length B)) (infer f (L ++ G) t).
+Proof. exact infer_insert. Qed.
+Check C18_infer_insert : forall B G, wf_offsets G -> forall f L t,
+  wf_offsets L -> ctx_hf' (L ++ G) -> hole_free t = true ->
+  infer f (insert_ctx L B G) (ushift t (length L) (length B)) =
+  option_map (fun T => ushift T (length L) (length B)) (infer f (L ++ G) t).
+Print Assumptions C18_infer_insert.
+
+Theorem C18_infer_closed_under : forall B f t, hole_free t = true ->
+  infer f B (ushift t 0 (length B)) = option_map (fun T => ushift T 0 (length B)) (infer f [] t).
+Proof. exact infer_closed_under. Qed.
+Check C18_infer_closed_under : forall B f t, hole_free t = true ->
+  infer f B (ushift t 0 (length B)) = option_map (fun T => ushift T 0 (length B)) (infer f [] t).
+Print Assumptions C18_infer_closed_under.
+
+Theorem C18_typing_under_inserted_context : forall B G f L t T,
+  wf_offsets G -> wf_offsets L -> ctx_hf' (L ++ G) -> hole_free t = true ->
+  infer f (L ++ G) t = Some T ->
+  has_type (insert_ctx L B G) (ushift t (length L) (length B)) (ushift T (length L) (length B)).
+Proof. exact infer_insert_has_type. Qed.
+Check C18_typing_under_inserted_context : forall B G f L t T,
+  wf_offsets G -> wf_offsets L -> ctx_hf' (L ++ G) -> hole_free t = true ->
+  infer f (L ++ G) t = Some T ->
+  has_type (insert_ctx L B G) (ushift t (length L) (length B)) (ushift T (length L) (length B)).
+Print Assumptions C18_typing_under_inserted_context.
+
+Theorem C18_infer_strengthen : forall B G f L' L t t0 T,
+  wf_offsets G -> wf_offsets L' -> ctx_hf' L' -> ctx_hf' G -> hole_free t = true ->
+  unshift_ctx L' (length B) = Some L ->
+  sshift t (length L') (- Z.of_nat (length B)) = Some t0 ->
+  infer f (L' ++ B ++ G) t = Some T ->
+  exists T0, infer f (L ++ G) t0 = Some T0 /\ sshift T (length L') (- Z.of_nat (length B)) = Some T0.
+Proof. exact infer_strengthen. Qed.
+Check C18_infer_strengthen : forall B G f L' L t t0 T,
+  wf_offsets G -> wf_offsets L' -> ctx_hf' L' -> ctx_hf' G -> hole_free t = true ->
+  unshift_ctx L' (length B) = Some L ->
+  sshift t (length L') (- Z.of_nat (length B)) = Some t0 ->
+  infer f (L' ++ B ++ G) t = Some T ->
+  exists T0, infer f (L ++ G) t0 = Some T0 /\ sshift T (length L') (- Z.of_nat (length B)) = Some T0.
+Print Assumptions C18_infer_strengthen.
